@@ -57,6 +57,8 @@ MutKinds == {"tvs", "th-unstored", "th-eq", "rev", "ts-le", "ts-future", "own", 
              "sig-flip", "sig-block", "sig-chain", "cid", "vh"}
 
 OtherVS(id) == IF id = "V" THEN "W" ELSE "V"
+\* a validator set without any member of the given one
+DisjointVS(id) == CASE id = "V" -> "X" [] id = "W" -> "Y" [] id = "X" -> "V" [] id = "Y" -> "W" [] id = "Z" -> "V" [] OTHER -> "Z"
 Unstored(c, h) == { x \in AllHeights : x \notin DOMAIN c.cons /\ x[1] = h[1] /\ HLT(x, h) }
 TwoOf(vs)   == CHOOSE s \in SUBSET Members(vs) : 3 * Cardinality(s) <= 2 * Cardinality(Members(vs))
                                                 /\ 3 * (Cardinality(s) + 1) > 2 * Cardinality(Members(vs))
@@ -70,7 +72,7 @@ Mut(c, hd, t, kind) ==
       [] kind = "ts-le"       -> [hd EXCEPT !.ts = TrustedCS(c, hd).ts]
       [] kind = "ts-future"   -> [hd EXCEPT !.ts = t + c.par.drift]
       [] kind = "own"         -> [hd EXCEPT !.sg = TwoOf(hd.vs)]
-      [] kind = "trust"       -> [hd EXCEPT !.vs = "X", !.sg = Members("X")]
+      [] kind = "trust"       -> [hd EXCEPT !.vs = DisjointVS(hd.tvs), !.sg = Members(DisjointVS(hd.tvs))]
       [] kind = "sig-flip"    -> [hd EXCEPT !.sig = "flip"]
       [] kind = "sig-block"   -> [hd EXCEPT !.sig = "block"]
       [] kind = "sig-chain"   -> [hd EXCEPT !.sig = "chain"]
